@@ -1,8 +1,8 @@
 /-
   Model of awesomeversion 24.6.0 comparison as pymysensors uses it, on the domain of
-  dotted-numeric version strings  [vV]?[.]? d+ (. d+)*  (ASCII digits), after
+  dotted-numeric version strings  [vV]? d+ (. d+)*  (any Unicode decimal digits), after
   AwesomeVersion's own normalisation (strip white space, drop one trailing '.', drop the
-  prefix "v" / "V" / "v." / "V.").  Sections compare numerically, missing sections are 0.
+  prefix "v" / "V").  Sections compare numerically, missing sections are 0.
   Everything outside the domain is `none` ("unknown": the library has many more strategies).
 
   Mirrors (after the `fix:` commit that uses "not <" instead of ">="):
@@ -26,10 +26,11 @@ def dropTrailingDot (s : Str) : Str :=
   | some (i, '.') => i
   | _ => s
 
+/-- `AwesomeVersion.prefix` tries "v", "V", "v.", "V." in that order and returns the first
+    that matches, so only one character is ever dropped ("v.1.4" becomes ".1.4", which no
+    strategy recognises). -/
 def dropPrefix (s : Str) : Str :=
   match s with
-  | 'v' :: '.' :: r => r
-  | 'V' :: '.' :: r => r
   | 'v' :: r => r
   | 'V' :: r => r
   | r => r
